@@ -146,6 +146,7 @@ def run_mutant(args):
         from rules import core, engine, roles as roles_mod, props
         try:
             crates = core.extract(repo=repo, workspace=True)
+            props.normalise(crates)
         except SystemExit as e:
             res["status"] = "extraction-failed"
             return res
